@@ -215,7 +215,7 @@ def match_finding(findings, pid, site, tags):
     for f in findings:
         if f.get("status") != "known" or f["property"] != pid or f["site"] != site:
             continue
-        if all(tags.get(k) == v for k, v in f.get("match", {}).items()):
+        if all((tags.get(k) in v) if isinstance(v, list) else (tags.get(k) == v) for k, v in f.get("match", {}).items()):
             return f
     return None
 
